@@ -316,7 +316,7 @@ CHECKS = {
 NOT_APPLICABLE = {}
 
 # checks that exist but are temporarily not claimed (being reconciled with repairs of other properties)
-SUSPENDED = {'C10': 'built and merged; its XML reader model is following the late repair 2581c7e of complex_from_element (a child element named like an XmlAttribute member is skipped); not claimed until green again'}
+SUSPENDED = {}
 
 # per-property overrides delivered by the builders (keys: text, note, technique, design_ref); a note that does not start
 # with the trusted-base paragraph gets it prepended
